@@ -29,10 +29,12 @@ struct SolveStats {
 static SolveStats observe(GMGPolar& s, const SolverCfg& cfg)
 {
     SolveStats st;
+    // every statistic is read after every solve ("statistics reported after a solve describe that solve only" has no
+    // exemption for solves without a tolerance or without iterations)
     st.its = s.numberOfIterations();
-    if (st.its > 0 && (cfg.abs_tol > 0 || cfg.rel_tol > 0))
-        st.rho = s.meanResidualReductionFactor();
-    if (cfg.max_its >= 1) {
+    st.rho = s.meanResidualReductionFactor();
+    (void)cfg;
+    {
         auto a = s.exactErrorWeightedEuclidean();
         auto b = s.exactErrorInfinity();
         if (a.has_value() && b.has_value()) {
@@ -195,14 +197,16 @@ static KV genCase()
                     s.post = 3 - s.post;
                     break;
                 case 4:
-                    s.max_its = rpick({150, 3, 7, 1});
+                    s.max_its = rpick({150, 3, 7, 1, 0});
                     break;
                 case 5:
                     s.norm = (s.norm + rint(1, 2)) % 3;
                     break;
                 case 6:
-                    s.rel_tol = rpick({1e-6, 1e-8, 1e-10});
+                    s.rel_tol = rpick({1e-6, 1e-8, 1e-10, -1.0});
                     s.abs_tol = rpick({-1.0, 1e-8, 1e-12});
+                    if (s.rel_tol < 0 && s.abs_tol < 0 && s.max_its > 7)
+                        s.max_its = 3;
                     break;
                 default:
                     s.fmg_its   = rint(0, 2);
@@ -225,10 +229,14 @@ static KV genCase()
             s.pre           = rint(1, 2);
             s.post          = rint(1, 2);
             s.max_levels    = rpick({-1, -1, 2, 3});
-            s.max_its       = rpick({150, 150, 3, 7});
+            s.max_its       = rpick({150, 150, 150, 3, 7, 0});
             s.norm          = rint(0, 2);
             s.rel_tol       = rpick({1e-6, 1e-8, 1e-10});
             s.abs_tol       = rpick({-1.0, 1e-8, 1e-12});
+            if (rint(0, 5) == 0) { // a solve that monitors nothing: both tolerances disabled, a few cycles
+                s.rel_tol = s.abs_tol = -1.0;
+                s.max_its = rpick({0, 2, 4});
+            }
             if (k > 0 && rint(0, 1) == 0)
                 s.nr_exp = rint(3, 5);
             if (k > 0 && rint(0, 3) == 0)
